@@ -25,6 +25,22 @@ echoes OTHER bounds than the new KSR declares, and the chain overlap sits on the
 and new bound that changed plus the midpoints between old and new; publish safety is PT0S there so that the later
 publish-safety check cannot mask the verdict.  Expected verdict = the documented rule: the overlap lies within the bounds
 declared IN THE NEW KSR (must-refuse cases signed and must-accept cases refused are both failing inputs).
+HEADER VARIATIONS (`HEADER_VARIANTS`): every KSR variant that re-uses something of the previous ceremony — the request id
+ALONE (fresh bundle ids, honest keys, timeline continued), one bundle id alone (first bundle = the previous last id, last
+bundle = the previous first id), the request id with its bundle ids (replayed), the chained identifiers with new key
+material, a first bundle with unchained keys — is run with every OTHER header field changed, one at a time: the serial
+(previous + 1, 0, 2^31), the domain (another one the operator accepts), the timeline (a day late, still inside the
+declared window).  None of that may turn a refusal into an acceptance: "no reused request or bundle id between
+neighbours" speaks of the id, not of (id, serial) or (id, domain).  The honest successor with another serial (higher,
+0, 2^31) must be accepted and is a state of the tree like any other (its successors meet a previous SKR whose serial is
+not 1).  Complete at depth 1, sampled below.
+TEXT HISTORIES (`ceremony_run.TEXT_PROFILES`): the same tree, smaller, spelled with non-ASCII but legal text in
+everything that is copied into an SKR: KSK labels in the configuration and on the token (CKA_LABEL), ZSK key identifiers,
+request ids and bundle ids (Latin-1 letters; other scripts of the basic plane; characters beyond the basic plane;
+characters a normalising layer would change).  Every emitted SKR must be read by the repository's loader as the very
+document a standard XML parser reads (`ceremony_run.reader_mismatch`), its bytes must be exactly the UTF-8 text the model's
+writer (C11's `skrToXml`, driver kskm_driver_pkge) gives for the SKR the ceremony model writes, and the honest successor
+of an emitted SKR in the 'normal' schema must be accepted (all three also in the ASCII tree).
 States are memoised: a refused ceremony leaves the state unchanged, so its subtree is its parent's.
 """
 
@@ -54,6 +70,16 @@ TRUSTED = ["harness/p11emu.py token emulator", "harness/ceremony_run.py entry-po
 
 VARIANTS = ["honest", "replayed", "gapped", "re-keyed", "wrong-first-keys", "late", "gap-declared-negative-min", "re-keyed-same-ids", "honest-stale-config-prev", "replayed-stale-config-prev"]
 T0 = datetime(2024, 1, 1, tzinfo=timezone.utc)
+# what a KSR may re-use of the previous ceremony (each must be refused on its own) …
+REUSE_ALONE = ["request-id-alone", "bundle-id-alone-first", "bundle-id-alone-last"]
+REUSE = REUSE_ALONE + ["replayed", "re-keyed-same-ids", "wrong-first-keys"]
+# … and the other header fields, changed one at a time
+HEADERS = ["other-serial", "serial-0", "serial-2^31", "other-domain", "late"]
+HEADER_VARIANTS = REUSE_ALONE + [f"{u}/{h}" for u in REUSE for h in HEADERS] + [f"honest/{h}" for h in HEADERS[:3]]
+# variants that the documented rules refuse whatever the schema, and those they accept in the quarterly routine ('normal' after 'normal')
+REFUSED = {"replayed", "gapped", "re-keyed", "wrong-first-keys", "gap-declared-negative-min", "re-keyed-same-ids", "replayed-stale-config-prev", *REUSE_ALONE}
+ROUTINE = {"honest", "honest-stale-config-prev"}
+OTHER_DOMAIN = "example."
 
 
 def example_schemas() -> dict[str, dict[int, dict[str, list[str]]]]:
@@ -78,9 +104,27 @@ class Quarter:
         self.last_exp = last_exp  # expiration of the last bundle of this SKR
         self.req_id = req_id  # the request id this SKR answers (and echoes)
         self.parent_xml = parent_xml  # the SKR before this one (a stale file a configuration may still name)
+        # serial and bundle ids as the file itself shows them (ElementTree)
+        self.serial = 1
+        self.bundle_ids: list[str] = []
+        if skr_xml is not None:
+            import xml.etree.ElementTree as ET
+
+            try:
+                root = ET.fromstring(skr_xml)
+                self.serial = int(root.get("serial"))
+                self.bundle_ids = [b.get("id") for b in root.find("Response").findall("ResponseBundle")]
+            except Exception:  # noqa: BLE001  (an unreadable SKR is reported by judge_written)
+                pass
+
+    def routine(self) -> bool:
+        """Every ceremony on the way here followed the 'normal' schema."""
+        return all(p.split("/")[0] == "normal" for p in self.path)
 
 
-def scenario_for(q: int, schema: dict[int, dict[str, list[str]]], variant: str, prev_q: int, prev_last_exp: datetime | None = None, prev_req_id: str | None = None) -> S.Scenario:
+def scenario_for(q: int, schema: dict[int, dict[str, list[str]]], variant: str, prev_q: int, prev_last_exp: datetime | None = None, prev_req_id: str | None = None, text: R.Text | None = None) -> S.Scenario:
+    """text: how the history spells KSK labels, ZSK identifiers and request ids (None = ASCII); `prev_req_id` is the id as the
+    previous SKR shows it (already spelled)."""
     sc = S.Scenario()
     sc.modules = [{"path": "emu0", "pin": "1234", "slots": [{"id": 0}]}]
     ksk = K.rsa_keys(2048, 65537)
@@ -116,9 +160,10 @@ def scenario_for(q: int, schema: dict[int, dict[str, list[str]]], variant: str, 
         start = base + timedelta(days=1)  # overlap 10 d: still inside the declared window
     sc.start = start
     sc.req_id = f"req-q{q}" + ("" if variant.startswith("honest") else f"-{variant}")
+    R.apply_text(sc, text)
     if variant.startswith("replayed") and prev_req_id is not None:
         sc.req_id = prev_req_id  # the id the previous SKR echoes
-    sc.meta = {"q": q, "variant": variant}
+    sc.meta = dict(sc.meta, q=q, variant=variant)
     return sc
 
 
@@ -167,6 +212,15 @@ def judge_written(res: Result, work: Path, o: dict[str, Any], case: dict[str, An
     bad = R.skr_problems(new_xml, num_bundles=9, roles=R.roles_of(sc), request_xml=ksr_xml if ksr_xml is not None else C.request_to_xml(sc.request()))
     if bad:
         res.violation("an emitted SKR is rejected by the independent validator (whole file, ElementTree + dnspython)", case, key="independent:" + variant, problems=bad[:6])
+    if "ok" in rl and not (bad and bad[0].startswith("not one well-formed")):
+        try:
+            repo_reading = R.canon_written(new_xml)
+        except Exception:  # noqa: BLE001
+            repo_reading = None
+        d = R.reader_mismatch(new_xml, repo_reading)
+        if d:
+            res.violation("an emitted SKR reads differently with the repository's loader than with a standard XML parser (the next ceremony will not see what was written)", case, key="reader:" + variant, first_difference=d)
+        res.bump("emitted SKR: loader reading == XML reading")
     if prev_skr is not None and not (bad and bad[0].startswith("not one well-formed")):
         broken = neighbour_broken(prev_skr, sc.request(), new_xml)
         if broken:
@@ -258,6 +312,183 @@ def policy_change_stream(res: Result, runs: list[dict[str, Any]], work: Path, sc
                 res.sample({"case": case, "outcome": out, "documented_rule_accepts": want}, limit=6)
 
 
+def header_variant(variant: str, st: Quarter, sc: S.Scenario) -> tuple[str, dict[str, Any]]:
+    """The KSR of a header variant `<what is re-used>[/<other header field changed>]` and the run_ceremony arguments it needs.
+    `sc` is the scenario of the base variant (fresh request id and bundle ids unless the base itself replays them)."""
+    base, _, hdr = variant.partition("/")
+    kw: dict[str, Any] = {}
+    if hdr == "late":
+        sc.start = sc.start + timedelta(days=1)  # overlap 10 d: still inside the declared window
+    xml = C.request_to_xml(sc.request())
+    if base == "request-id-alone":
+        xml = R.rewrite_header(xml, id=st.req_id)
+    elif base == "bundle-id-alone-first" and st.bundle_ids:
+        xml = R.rewrite_bundle_id(xml, 0, st.bundle_ids[-1])
+    elif base == "bundle-id-alone-last" and st.bundle_ids:
+        xml = R.rewrite_bundle_id(xml, len(sc.layout) - 1, st.bundle_ids[0])
+    if hdr == "other-serial":
+        xml = R.rewrite_header(xml, serial=st.serial + 1)
+    elif hdr == "serial-0":
+        xml = R.rewrite_header(xml, serial=0 if st.serial != 0 else 5)
+    elif hdr == "serial-2^31":
+        xml = R.rewrite_header(xml, serial=2**31 if st.serial != 2**31 else 7)
+    elif hdr == "other-domain":
+        xml = R.rewrite_header(xml, domain=OTHER_DOMAIN)
+        kw["rp_extra"] = {"acceptable_domains": [".", OTHER_DOMAIN]}
+    return xml, kw
+
+
+def explore(res: Result, r: Any, runs: list[dict[str, Any]], work: Path, schemas: dict[str, Any], tier: str, *, text: R.Text | None, budget: int, depth_max: int, full: bool) -> None:
+    """One tree of ceremonies from a bootstrap 'normal' quarter, spelled as `text` says.  full: every schema x the honest
+    variant and every variant for the rotating schema at every state (the ASCII tree); otherwise a handful per state."""
+    names = list(schemas)
+    tag = text.name if text is not None else "ascii"
+    quick = tier == "quick"
+    boot = scenario_for(0, schemas["normal"], "honest", 0, text=text)
+    o = R.run_ceremony(boot, work, answer="Yes")
+    o["case"] = {"path": [], "schema": "normal", "variant": "bootstrap", "text": tag}
+    runs.append(o)
+    res.count(o["case"])
+    res.bump("text:" + tag)
+    if not o["written"]:
+        res.violation("bootstrap ceremony did not succeed", o["case"], key="bootstrap", outcome=o["outcome"])
+        return
+    judge_written(res, work, o, o["case"], boot, None, None, "bootstrap")
+    if text is not None:
+        res.sample({"text": tag, "ksk_labels": [k["label"] for k in boot.ksks.values()], "zsk_identifiers": [z[0] for z in boot.zsks], "request_id": boot.req_id, "bytes_written": len(o["file_after"]), "non_ascii_bytes": sum(1 for c in o["file_after"] if c > 127)}, limit=10)
+    root = Quarter(o["file_after"], 0, ("normal",), boot.start + timedelta(days=101), boot.req_id)
+    frontier = [root]
+    executed = 0
+    for depth in range(1, depth_max + 1):
+        nxt: list[Quarter] = []
+        for st in frontier:
+            q = st.q + 1
+            rot = names[(len(st.path) + st.q) % len(names)]
+            honest_outcome: dict[str, Any] = {}
+            if full:
+                combos = [(n, "honest") for n in names]
+                combos += [(rot, v) for v in VARIANTS[1:]]
+                # header variations: complete at depth 1 (for the rotating schema; the honest ones for 'normal' as well), sampled below
+                hv = [(rot, v) for v in HEADER_VARIANTS] + [("normal", v) for v in HEADER_VARIANTS if v.startswith("honest/") and rot != "normal"]
+                if depth >= 3:
+                    keep = [(rot, "honest"), (rot, "honest-stale-config-prev")]
+                    combos = keep + r.sample([c for c in combos + hv if c not in keep], min(len(combos) - 2, 3 if quick else 8))
+                elif depth == 2:
+                    combos += r.sample(hv, 6 if quick else 16)
+                else:
+                    combos += hv
+            else:
+                keep = [("normal", "honest"), (rot, "honest"), (rot, "replayed"), (rot, "request-id-alone/other-serial"), (rot, "honest-stale-config-prev")]
+                rest = [(rot, v) for v in VARIANTS[1:] + HEADER_VARIANTS] + [(n, "honest") for n in names]
+                combos = list(dict.fromkeys(keep + r.sample([c for c in rest if c not in keep], (3 if depth == 1 else 1) if quick else 8)))
+            for sname, variant in combos:
+                if executed >= budget:
+                    break
+                executed += 1
+                base = variant.partition("/")[0]
+                sc = scenario_for(q, schemas[sname], "honest" if base in REUSE_ALONE else base, st.q, st.last_exp, st.req_id, text=text)
+                if "/" in variant or base in REUSE_ALONE:
+                    # a fresh request id (and with it fresh bundle ids) of its own, unless the base variant replays the previous one
+                    if not base.startswith("replayed"):
+                        sc.req_id = (text.rid if text else str)(f"req-q{q}-" + variant.replace("/", "-"))
+                if executed % 2:
+                    # the configuration lists the schema's slots in another order; the slot NUMBER decides
+                    sc.schema_listing = sorted(sc.schema)
+                    while sc.schema_listing == sorted(sc.schema):
+                        r.shuffle(sc.schema_listing)
+                ksr_xml = None
+                extra: dict[str, Any] = {}
+                if variant == "gap-declared-negative-min":
+                    # the repository's duration reader adds a trailing integer as seconds: "P0D-86400" is minus one day
+                    ksr_xml = C.request_to_xml(sc.request())
+                    a0 = ksr_xml.index("<MinValidityOverlap>")
+                    a1 = ksr_xml.index("</MinValidityOverlap>")
+                    ksr_xml = ksr_xml[:a0] + "<MinValidityOverlap>P0D-86400" + ksr_xml[a1:]
+                if "/" in variant or base in REUSE_ALONE:
+                    ksr_xml, extra = header_variant(variant, st, sc)
+                # what lies at the output path before the run (the previous quarter's SKR: one path re-used every quarter)
+                pre_tag, pre = R.output_files(earlier_skr=st.skr_xml)[executed % 5]
+                if variant.endswith("stale-config-prev"):
+                    # the configuration still names the SKR before the previous one; the command line names the right file
+                    if st.parent_xml is None:
+                        continue
+                    mode = "both"
+                    src = {"prev_xml": st.parent_xml.decode(), "prev_cli_xml": st.skr_xml.decode()}
+                else:
+                    mode = R.PREV_MODES[executed % 3]
+                    if mode == "both" and st.parent_xml is None:
+                        mode = "cli"
+                    src = {"config": {"prev_xml": st.skr_xml.decode()}, "cli": {"prev_cli_xml": st.skr_xml.decode()}, "both": {"prev_cli_xml": st.skr_xml.decode(), "prev_xml": (st.parent_xml or b"").decode()}}[mode]
+                o = R.run_ceremony(sc, work, answer="Yes", ksr_xml=ksr_xml, preexisting=pre, **src, **extra)
+                case = {"path": list(st.path), "schema": sname, "variant": variant, "quarter": q, "previous_skr_named_in": mode, "output_path_before": pre_tag, "slots_listed": sc.schema_listing or "ascending", "text": tag}
+                if "/" in variant or base in REUSE_ALONE:
+                    case["previous_skr_id_serial"] = [st.req_id, st.serial]
+                    case["ksr_header"] = ksr_xml[ksr_xml.index("<KSR ") : ksr_xml.index(">", ksr_xml.index("<KSR ")) + 1]
+                o["case"] = case
+                runs.append(o)
+                res.count(case)
+                res.bump("variant:" + variant)
+                res.bump("schema:" + sname)
+                res.bump("previous-skr-source:" + mode)
+                res.bump("output-path-before:" + pre_tag)
+                res.bump("schema-listing:" + ("shuffled" if sc.schema_listing else "ascending"))
+                res.bump("text:" + tag)
+                if st.serial != 1:
+                    res.bump("previous SKR with a serial other than 1")
+                out = o["outcome"]
+                ok = out == {"ok": True}
+                res.bump("outcome:" + ("accepted" if ok else str(next(iter(out.values())))))
+                if ok != o["written"]:
+                    res.violation("result and write disagree", case, key="write", outcome=out)
+                if not o["written"] and o["file_after"] != pre:
+                    res.violation("a refused ceremony did not leave the output path as it was", case, key="clobbered:" + pre_tag, outcome=out)
+                if variant == "honest":
+                    honest_outcome[sname] = out
+                if variant == "honest-stale-config-prev" and sname in honest_outcome and not lib.same_outcome(out, honest_outcome[sname]):
+                    # which file the CONFIGURATION names must not matter when the command line names the previous SKR
+                    res.violation("outcome is not that of the documented rules applied to the actual previous output", case, key="stale-config-prev", outcome=out, outcome_with_only_the_right_file=honest_outcome[sname])
+                if base in REFUSED and ok:
+                    res.violation("a replayed / gapped / re-keyed / unchained KSR was accepted", case, key="accepted:" + variant, outcome=out)
+                if base in REFUSED and not ok and o["sign_ops"]:
+                    res.violation("private-key operations for a KSR that does not chain", case, key="early-sign:" + variant, outcome=out, sign_ops=o["sign_ops"])
+                if base in ROUTINE and not variant.endswith("other-domain") and sname == "normal" and st.routine():
+                    # the quarterly routine: the honest successor of an emitted SKR, same schema, same keys — whatever its serial
+                    res.bump("routine successor (must be accepted)")
+                    if not ok:
+                        res.violation("the honest successor of an emitted SKR was refused in the quarterly routine ('normal' after 'normal')", case, key="refused:" + variant, outcome=out)
+                if o["written"]:
+                    new_xml = o["file_after"]
+                    # every emitted SKR must be loadable and acceptable as the next previous SKR
+                    judge_written(res, work, o, case, sc, ksr_xml, st.skr_xml, variant)
+                    if depth == 1 and variant == "honest":
+                        # the same ceremony to a fresh path: what is found at a re-used path must not show in the result at all
+                        twin = R.run_ceremony(sc, work, answer="Yes", ksr_xml=ksr_xml, preexisting=None, **src)
+                        res.bump("fresh-path twin")
+                        if twin["file_after"] != new_xml:
+                            res.violation("the SKR at a re-used output path differs from the one the same ceremony writes to a fresh path", case, key="fresh-path:" + pre_tag, bytes_at_reused_path=len(new_xml), bytes_at_fresh_path=None if twin["file_after"] is None else len(twin["file_after"]))
+                    if not variant.endswith("other-domain"):  # (its successors would need the widened policy: not a state of this tree)
+                        import xml.etree.ElementTree as ET
+
+                        try:
+                            echoed = ET.fromstring(new_xml).get("id")
+                        except Exception:  # noqa: BLE001
+                            echoed = sc.req_id
+                        nxt.append(Quarter(new_xml, q, st.path + (f"{sname}/{variant}",), sc.start + timedelta(days=101), echoed or sc.req_id, st.skr_xml))
+                if len(res.samples) < 3 and (ok or variant == "gapped"):
+                    res.sample({"case": case, "outcome": out, "token_ops": len(o["log"])})
+                if "/" in variant and not any(isinstance(x, dict) and "/" in str(x.get("case", {}).get("variant", "")) for x in res.samples):
+                    res.sample({"case": case, "outcome": out}, limit=10)
+        # keep the frontier small but varied
+        cap = (6 if quick else 24) if full else (2 if quick else 4)
+        if len(nxt) > cap:
+            # (a state reached with another serial stays in: its successors meet a previous SKR whose serial is not 1)
+            special = [x for x in nxt if x.serial != 1][:1]
+            nxt = special + r.sample([x for x in nxt if x not in special], cap - len(special))
+        frontier = nxt
+        if not frontier:
+            break
+
+
 def run(tier: str, driver_ok: bool) -> Result:
     res = Result("C10")
     res.rule = (
@@ -265,119 +496,29 @@ def run(tier: str, driver_ok: bool) -> Result:
         "variant, all variants at every visited state for a rotating schema, depth 3 (thorough: 4) sampled; states memoised (a refused ceremony "
         "leaves the state unchanged); rotating around every transition: bytes at the output path before the run (absent / short / 300 kB / previous "
         "SKR / previous SKR made longer), source of the previous SKR's name (configuration / command line / both with a stale file configured), "
-        "listing order of the schema's slots; depth-1 honest transitions also to a fresh path (byte-identical); policy-change histories: declared "
+        "listing order of the schema's slots; depth-1 honest transitions also to a fresh path (byte-identical); header variations: 6 kinds of re-use "
+        "(request id alone, a bundle id alone first/last, replayed, re-keyed under the chained identifiers, unchained first keys) x 5 other header "
+        "changes (serial +1 / 0 / 2^31, another accepted domain, a day late) + the honest successor with another serial, complete at depth 1, sampled "
+        "below; the same tree (smaller) in 4 non-ASCII spellings of KSK labels / ZSK identifiers / request and bundle ids; every emitted SKR: "
+        "load_skr, independent validator, loader reading == XML reading, bytes == the model writer's UTF-8 text; the routine honest successor must "
+        "be accepted; policy-change histories: declared "
         "Min/MaxValidityOverlap changes between consecutive KSRs (6 old->new profile pairs) x chain overlap on {-1s,0,+1s} around each changed old and "
-        "new bound and their midpoint, publish safety PT0S; non-trivial = distinct (path, schema, variant, overlap, rotation)"
+        "new bound and their midpoint, publish safety PT0S; non-trivial = distinct (path, schema, variant, overlap, rotation, spelling)"
     )
     r = lib.rng("C10")
     schemas = example_schemas()
-    names = list(schemas)
     work = R.scratch_dir("C10")
     runs: list[dict[str, Any]] = []
-    budget = 260 if tier == "quick" else 2600
+    quick = tier == "quick"
     try:
-        # bootstrap: quarter 0, 'normal', no previous SKR
-        boot = scenario_for(0, schemas["normal"], "honest", 0)
-        o = R.run_ceremony(boot, work, answer="Yes")
-        o["case"] = {"path": [], "schema": "normal", "variant": "bootstrap"}
-        runs.append(o)
-        res.count(o["case"])
-        if not o["written"]:
-            res.violation("bootstrap ceremony did not succeed", o["case"], key="bootstrap", outcome=o["outcome"])
-            return res
-        judge_written(res, work, o, o["case"], boot, None, None, "bootstrap")
-        root = Quarter(o["file_after"], 0, ("normal",), boot.start + timedelta(days=101))
-        frontier = [root]
-        depth_max = 3 if tier == "quick" else 4
-        executed = 0
-        for depth in range(1, depth_max + 1):
-            nxt: list[Quarter] = []
-            for st in frontier:
-                q = st.q + 1
-                combos = [(n, "honest") for n in names]
-                rot = names[(len(st.path) + st.q) % len(names)]
-                combos += [(rot, v) for v in VARIANTS[1:]]
-                honest_outcome: dict[str, Any] = {}
-                if depth >= 3:
-                    keep = [(rot, "honest"), (rot, "honest-stale-config-prev")]
-                    combos = keep + r.sample([c for c in combos if c not in keep], min(len(combos) - 2, 3 if tier == "quick" else 8))
-                for sname, variant in combos:
-                    if executed >= budget:
-                        break
-                    executed += 1
-                    sc = scenario_for(q, schemas[sname], variant, st.q, st.last_exp, st.req_id)
-                    if executed % 2:
-                        # the configuration lists the schema's slots in another order; the slot NUMBER decides
-                        sc.schema_listing = sorted(sc.schema)
-                        while sc.schema_listing == sorted(sc.schema):
-                            r.shuffle(sc.schema_listing)
-                    ksr_xml = None
-                    if variant == "gap-declared-negative-min":
-                        # the repository's duration reader adds a trailing integer as seconds: "P0D-86400" is minus one day
-                        ksr_xml = C.request_to_xml(sc.request())
-                        a0 = ksr_xml.index("<MinValidityOverlap>")
-                        a1 = ksr_xml.index("</MinValidityOverlap>")
-                        ksr_xml = ksr_xml[:a0] + "<MinValidityOverlap>P0D-86400" + ksr_xml[a1:]
-                    # what lies at the output path before the run (the previous quarter's SKR: one path re-used every quarter)
-                    pre_tag, pre = R.output_files(earlier_skr=st.skr_xml)[executed % 5]
-                    if variant.endswith("stale-config-prev"):
-                        # the configuration still names the SKR before the previous one; the command line names the right file
-                        if st.parent_xml is None:
-                            continue
-                        mode = "both"
-                        src = {"prev_xml": st.parent_xml.decode(), "prev_cli_xml": st.skr_xml.decode()}
-                    else:
-                        mode = R.PREV_MODES[executed % 3]
-                        if mode == "both" and st.parent_xml is None:
-                            mode = "cli"
-                        src = {"config": {"prev_xml": st.skr_xml.decode()}, "cli": {"prev_cli_xml": st.skr_xml.decode()}, "both": {"prev_cli_xml": st.skr_xml.decode(), "prev_xml": (st.parent_xml or b"").decode()}}[mode]
-                    o = R.run_ceremony(sc, work, answer="Yes", ksr_xml=ksr_xml, preexisting=pre, **src)
-                    case = {"path": list(st.path), "schema": sname, "variant": variant, "quarter": q, "previous_skr_named_in": mode, "output_path_before": pre_tag, "slots_listed": sc.schema_listing or "ascending"}
-                    o["case"] = case
-                    runs.append(o)
-                    res.count(case)
-                    res.bump("variant:" + variant)
-                    res.bump("schema:" + sname)
-                    res.bump("previous-skr-source:" + mode)
-                    res.bump("output-path-before:" + pre_tag)
-                    res.bump("schema-listing:" + ("shuffled" if sc.schema_listing else "ascending"))
-                    out = o["outcome"]
-                    ok = out == {"ok": True}
-                    res.bump("outcome:" + ("accepted" if ok else str(next(iter(out.values())))))
-                    if ok != o["written"]:
-                        res.violation("result and write disagree", case, key="write", outcome=out)
-                    if not o["written"] and o["file_after"] != pre:
-                        res.violation("a refused ceremony did not leave the output path as it was", case, key="clobbered:" + pre_tag, outcome=out)
-                    if variant == "honest":
-                        honest_outcome[sname] = out
-                    if variant == "honest-stale-config-prev" and sname in honest_outcome and not lib.same_outcome(out, honest_outcome[sname]):
-                        # which file the CONFIGURATION names must not matter when the command line names the previous SKR
-                        res.violation("outcome is not that of the documented rules applied to the actual previous output", case, key="stale-config-prev", outcome=out, outcome_with_only_the_right_file=honest_outcome[sname])
-                    if variant in ("replayed", "gapped", "re-keyed", "wrong-first-keys", "gap-declared-negative-min", "re-keyed-same-ids", "replayed-stale-config-prev") and ok:
-                        res.violation("a replayed / gapped / re-keyed / unchained KSR was accepted", case, key="accepted:" + variant, outcome=out)
-                    if o["written"]:
-                        new_xml = o["file_after"]
-                        # every emitted SKR must be loadable and acceptable as the next previous SKR
-                        judge_written(res, work, o, case, sc, ksr_xml, st.skr_xml, variant)
-                        if depth == 1 and variant == "honest":
-                            # the same ceremony to a fresh path: what is found at a re-used path must not show in the result at all
-                            twin = R.run_ceremony(sc, work, answer="Yes", ksr_xml=ksr_xml, preexisting=None, **src)
-                            res.bump("fresh-path twin")
-                            if twin["file_after"] != new_xml:
-                                res.violation("the SKR at a re-used output path differs from the one the same ceremony writes to a fresh path", case, key="fresh-path:" + pre_tag, bytes_at_reused_path=len(new_xml), bytes_at_fresh_path=None if twin["file_after"] is None else len(twin["file_after"]))
-                        nxt.append(Quarter(new_xml, q, st.path + (f"{sname}/{variant}",), sc.start + timedelta(days=101), sc.req_id, st.skr_xml))
-                    if len(res.samples) < 3 and (ok or variant == "gapped"):
-                        res.sample({"case": case, "outcome": out, "token_ops": len(o["log"])})
-            # keep the frontier small but varied
-            if len(nxt) > (6 if tier == "quick" else 24):
-                nxt = r.sample(nxt, 6 if tier == "quick" else 24)
-            frontier = nxt
-            if not frontier:
-                break
+        explore(res, r, runs, work, schemas, tier, text=None, budget=340 if quick else 2600, depth_max=3 if quick else 4, full=True)
+        for text in R.TEXT_PROFILES.values():
+            explore(res, lib.rng("C10:" + text.name), runs, work, schemas, tier, text=text, budget=32 if quick else 160, depth_max=3, full=False)
         policy_change_stream(res, runs, work, schemas, tier)
         if driver_ok:
             with_line = [x for x in runs if "line" in x]
             outs = lib.run_driver([x["line"] for x in with_line], exe=DRIVER)
+            to_predict: list[tuple[dict[str, Any], Any, dict[str, Any], bytes]] = []
             for x, m in zip(with_line, outs):
                 if "driver_error" in m:
                     res.disagreement("ksrsigner: driver error", x["case"], x["outcome"], m)
@@ -408,6 +549,9 @@ def run(tier: str, driver_ok: bool) -> Result:
                         whole = None
                     if whole is not None and S.response_sorted_j(writes[0]) != whole:
                         res.disagreement("the file at the output path is not exactly the SKR the model writes", x["case"], x["outcome"], m["result"])
+                    to_predict.append((x["case"], x["outcome"], writes[0], x["file_after"]))
+            # the bytes at the output path against the model's WRITER (C11's skrToXml) applied to the SKR the ceremony model writes
+            R.compare_written_bytes(res, to_predict)
     finally:
         R.cleanup(work)
     return res
